@@ -43,6 +43,14 @@ def extra_cases(rng, quick):
             for w2 in wraps[:2]:
                 out.append((dict(oh), "%s{%s{%s :host{color:red}} %s :host{color:green} .d{left:2rpx}}" % (w, w2, b, b)))
             out.append((dict(o), "%s{%s .a .b{color:blue}}" % (w, b)))
+    # identifiers that only their escapes keep identifiers: `-` + digit, a lone `-`, a leading digit, `--` + digit — as values, property names, class names
+    # (with and without a prefix), in at-rule preludes and functions (round 12, C08-11: a fast path copied "plain" identifiers unescaped)
+    idents = ["-\\31 a", "\\-", "\\31 0", "-\\32", "a\\:b", "--x", "-webkit-x", "\\2d", "-\\2d 1", "x\\ y", "\\30", "-\\30px", "\\-1"]
+    for i, a in enumerate(idents):
+        b = idents[(i + 3) % len(idents)]
+        css = ".%s{counter-reset:%s 2;animation:%s 1s;%s:v}@keyframes %s{from{a:%s}}@media %s{.%s .q{f:g(%s)}}" % (a, b, a, b, a, b, a, b, a)
+        out.append((dict(o), css))
+        out.append((dict(o, class_prefix="p"), css))
     return out
 
 
